@@ -31,6 +31,10 @@ type C15Case struct {
 
 var c15Alphabet = []string{"a", "\x00", "<", ">", " ", "\t", "\r", "\n", "/", "é", "\u00a0", "\u2028", "\v", "\f"}
 
+// c15Wide: the alphabet of the random tier - also characters whose code point ends in the byte of a white
+// space character (U+4E0A, U+4E0D, U+4E09, U+2020, U+010D, U+0120, U+2009) or that Unicode calls a space
+var c15Wide = append(append([]string{}, c15Alphabet...), "上", "不", "三", "†", "č", "Ġ", "\u2009", "\u3000", "\u0085", "\ufeff", "\U0001F600")
+
 // neighbours: what stands before and after the run inside the template, and what they render to
 var c15Neighbors = []struct{ name, before, after, outBefore, outAfter string }{
 	{"template-edges", "", "", "", ""},
@@ -263,7 +267,7 @@ func genC15(t *rapid.T) C15Case {
 		for i, n := 0, rapid.IntRange(1, 4).Draw(t, "nruns"); i < n; i++ {
 			var b strings.Builder
 			for j, m := 0, rapid.IntRange(0, scale(60, 200)).Draw(t, "len"); j < m; j++ {
-				b.WriteString(rapid.SampledFrom(c15Alphabet).Draw(t, "ch"))
+				b.WriteString(rapid.SampledFrom(c15Wide).Draw(t, "ch"))
 			}
 			r := b.String()
 			if hasCommentStart(r) {
@@ -289,7 +293,7 @@ func genC15(t *rapid.T) C15Case {
 				}
 				c.Runs = append(c.Runs, p)
 			case "text":
-				c.Runs = append(c.Runs, rapid.SampledFrom([]string{"a", "b c", " d ", "\n", "  \n  ", "<p>", "http://x.y/z", "a//b", "e\n", "\nf", "x:// y", "<br>\n", " ", "é", "1/2", "ftp://h/ /p"}).Draw(t, "text"))
+				c.Runs = append(c.Runs, rapid.SampledFrom([]string{"a", "b c", " d ", "\n", "  \n  ", "<p>", "http://x.y/z", "a//b", "e\n", "\nf", "x:// y", "<br>\n", " ", "é", "1/2", "ftp://h/ /p", "上", "不\n三", "a†//b", "č//z", "\u2009", "x上//y", "三/ x", "\u3000"}).Draw(t, "text"))
 			case "blocktight":
 				c.Runs = append(c.Runs, rapid.SampledFrom([]string{"", "*", "**", "***", "****", " x*", " x **", "/", "/*", " * / *", "*\n*"}).Draw(t, "cmt"))
 			case "line", "line-cr", "line-crlf":
